@@ -118,6 +118,17 @@ class BoundModel:
         return self.fn(current(), self.selfv, *a, **k)
 
 
+_MISSING = object()
+
+
+def _symkeyed(d, key):
+    """a dict operation that python's hashing would get wrong: the key or some existing key is a sequence with
+    symbolic members (the wrappers hash by identity)"""
+    if isinstance(key, (tuple, list)) and _has_sym(key):
+        return True
+    return isinstance(key, tuple) and any(isinstance(k, tuple) and _has_sym(k) for k in d)
+
+
 def _has_sym(v, depth=0):
     if is_sym(v):
         return True
@@ -627,6 +638,11 @@ class Exec:
             return r
         if isinstance(obj, dict) and is_sym(idx):
             return models.dict_getitem_sym(self, obj, idx)
+        if isinstance(obj, dict) and _symkeyed(obj, idx):
+            k = self.dict_find_key(obj, idx)
+            if k is _MISSING:
+                raise PyRaise(KeyError(idx))
+            return obj[k]
         if hasattr(type(obj), '_pyvc_getitem'):
             return obj._pyvc_getitem(self, idx)
         if is_sym(obj) or is_sym(idx):
@@ -1180,6 +1196,12 @@ class Exec:
             return obj._pyvc_setitem(self, idx, value)
         if is_sym(idx):
             raise Unsupported("store at symbolic index")
+        if isinstance(obj, dict) and _symkeyed(obj, idx):
+            # key with symbolic members (e.g. a tuple): python would hash the wrapper objects by identity.  Find the
+            # existing key it may be equal to (forking), else it is a new key
+            k = self.dict_find_key(obj, idx)
+            if k is not _MISSING:
+                idx = k
         if isinstance(obj, (dict, list)) and not self.is_fresh(obj):
             self.writes.append((obj, ('item', idx)))
             if isinstance(obj, dict):
@@ -1192,6 +1214,23 @@ class Exec:
             raise
         except Exception as e:
             raise PyRaise(e)
+
+    def dict_find_key(self, d, key):
+        """the key of d that equals `key` (which has symbolic members), deciding equality element-wise and forking
+        where it is open; _MISSING if none"""
+        for k in list(d):
+            if k is key:
+                return k
+            if not isinstance(k, (tuple, list)):
+                continue
+            r = self.compare(ast.Eq(), k, key)
+            if isinstance(r, bool):
+                if r:
+                    return k
+                continue
+            if self.branch(r.t, tag="dict.key.equal"):
+                return k
+        return _MISSING
 
     def undo_container(self, obj, key, had, old):
         self.undo.append((_ItemUndo(obj, key), None, had, old))
